@@ -172,7 +172,7 @@ def cloud(rng, n, d):
   return rng.randn(n, d).dot(B)
 
 
-COV_KINDS = ('full-rank', 'duplicate-feature', 'constant-feature', 'dependent-feature', 'few-samples')
+COV_KINDS = ('full-rank', 'duplicate-feature', 'constant-feature', 'dependent-feature', 'few-samples', 'heterogeneous-scales')
 
 
 def covariance_datasets(rng, count):
@@ -197,6 +197,16 @@ def covariance_datasets(rng, count):
         X = rng.randint(-6, 7, size=(n, d)).astype(float)
         X[:, d - 1] = X[:, 0] + X[:, 1] if d > 2 else 2 * X[:, 0]
         rank = d - 1
+      elif kind == 'heterogeneous-scales':
+        # features recorded in very different units (standard deviations up to 3e5 apart): the covariance is invertible, its eigenvalues span
+        # ~11 orders of magnitude -- far above any rank cut-off relative to machine precision
+        units = 10.0 ** rng.uniform(-3, 2.5, size=d)
+        units[0], units[-1] = 3e2, 1e-3
+        X = (rng.randn(max(n, 3 * d), d) + rng.randn(d)) * units
+        yield_scaled = dict(kind=kind, d=d, n=len(X), rank=d, X=X, units=units)
+        made += 1
+        yield yield_scaled
+        break
       elif kind == 'few-samples':
         n = int(rng.randint(2, d + 1))
         X = X[:n]
@@ -376,6 +386,16 @@ def check_covariance(ml, ds):
     return bad('covariance-fit-error', err, **inp)
   M = est.get_mahalanobis_matrix()
   S = np.atleast_2d(np.cov(X, rowvar=False))
+  if ds.get('units') is not None:
+    # reference through the well-conditioned covariance of the standardised features: inv(D R D) = D^-1 inv(R) D^-1
+    u = ds['units']
+    R = np.atleast_2d(np.cov(X / u, rowvar=False))
+    ref = np.linalg.inv(R) / np.outer(u, u)
+    Mn = M * np.outer(u, u)
+    if not close(Mn, np.linalg.inv(R), rtol=1e-5, atol_scale=1e-6):
+      return bad('covariance-pinv', 'get_mahalanobis_matrix() is not the inverse covariance of badly scaled (but linearly independent) features: '
+                 'relative error %s in standardised units' % relerr(Mn, np.linalg.inv(R)), **inp)
+    return None
   ref = 1.0 / S if ds['d'] == 1 else np.linalg.pinv(S, rcond=1e-10, hermitian=True)
   if not close(M, ref):
     return bad('covariance-pinv', 'get_mahalanobis_matrix() differs from pinv(cov(X)) (rank %d of %d): relative error %s'
@@ -511,6 +531,35 @@ def check_lfda_formula(ml, ds, ncomp, emb):
   return None
 
 
+def check_lfda_embedding_consistency(ml, ds, ncomp):
+  """'scaled according to embedding_type', checked against the estimator's OWN plain embedding (so independent of how the local scale is
+  defined): 'weighted' rows are positive multiples of the plain rows, and the first j rows of 'orthonormalized' span what the first j plain rows
+  span, for every j -- the Gram-Schmidt process has to run over the eigenvectors in order of decreasing eigenvalue"""
+  inp = lfda_input(ds, ncomp, 'orthonormalized')
+  fits = {}
+  for emb in ('plain', 'weighted', 'orthonormalized'):
+    est, err = lfda_fit(ml, ds, ncomp, emb)
+    if err:
+      return bad('lfda-fit-error', err, **lfda_input(ds, ncomp, emb))
+    fits[emb] = np.asarray(est.components_)
+  P, W, O = fits['plain'], fits['weighted'], fits['orthonormalized']
+  if not (P.shape == W.shape == O.shape) or np.iscomplexobj(O) or not np.all(np.isfinite(O)):
+    return bad('lfda-embedding-consistency', 'shapes / dtypes of the three embeddings differ: %r %r %r' % (P.shape, W.shape, O.shape), **inp)
+  for i in range(len(P)):
+    a, b = P[i] / max(np.linalg.norm(P[i]), 1e-300), W[i] / max(np.linalg.norm(W[i]), 1e-300)
+    if np.abs(a - b).max() > 1e-6:
+      return bad('lfda-embedding-consistency', "row %d of the 'weighted' embedding is not a positive multiple of row %d of the 'plain' one" % (i, i), **inp)
+  G = O.dot(O.T)
+  if not np.allclose(G, np.eye(len(O)), rtol=0, atol=1e-8):
+    return bad('lfda-orthonormalized-basis', 'rows of components_ are not orthonormal: max deviation %.3g' % np.abs(G - np.eye(len(O))).max(), **inp)
+  for j in range(1, len(P) + 1):
+    dev = float(np.abs(projector_rows(O[:j]) - projector_rows(P[:j])).max())
+    if dev > 1e-6:
+      return bad('lfda-embedding-consistency', "the first %d rows of the 'orthonormalized' embedding do not span the first %d rows of the 'plain' one "
+                 '(projector deviation %.3g): the orthonormalisation did not follow the order of decreasing eigenvalue' % (j, j, dev), **inp)
+  return None
+
+
 def relabelings(ds, rng_seed):
   """permutations of the label NAMES: reversed size order (smallest class first) and a random renaming to arbitrary integers"""
   y = ds['y']
@@ -622,6 +671,9 @@ def cases(tier, seed):
       for ncomp in [None] + list(range(1, d + 1)):
         desc = '%s n_components=%s %s' % (base, ncomp, emb)
         yield desc + ' [formula]', (TAG_LFDA,), guarded(lambda ds=ds, ncomp=ncomp, emb=emb: check_lfda_formula(ml, ds, ncomp, emb), desc)
+    for ncomp in (None, max(2, d - 1)) if d >= 2 else (None,):
+      desc = '%s n_components=%s [embedding consistency]' % (base, ncomp)
+      yield desc, (TAG_LFDA,), guarded(lambda ds=ds, ncomp=ncomp: check_lfda_embedding_consistency(ml, ds, ncomp), desc)
     rs = (seed * 7919 + idx) % 2 ** 32
     pick = np.random.RandomState(rs)
     combos = [(None, 'weighted', 0), (None, 'weighted', 1),
@@ -637,6 +689,7 @@ def cases(tier, seed):
 
 SIGNATURES = {
     'covariance-pinv': 'covariance-pinv: Covariance M differs from pinv(cov(X))',
+    'lfda-embedding-consistency': "lfda-embedding-consistency: LFDA 'weighted' / 'orthonormalized' embeddings are not the documented rescalings of the plain one",
     'covariance-fit-error': 'covariance-fit-error: Covariance.fit raises on well-formed X',
     'rca-full-inverse': 'rca-full-inverse: RCA full-rank M differs from inv(average within-chunk covariance)',
     'rca-whitening': 'rca-whitening: within-chunk covariance of RCA-transformed data is not the identity',
